@@ -87,10 +87,28 @@ func c16(p Params) func() {
 		}
 		ctxt := fmt.Sprintf("first=%s verdict=%s setid=%v pipelined=%d when=%d hangup=%v", first.name, verdict, renames, npipe, when, hangup)
 
-		raw, sc := vnet.Pipe(vnet.NewAddr(), vnet.NewAddr())
+		// the connection enters the server either through Peer.ServeConn or through the accept loop of a listener
+		viaListener := vsched.Choose(2, "path") == 1
+		var raw, sc *vnet.Conn
 		var sess erpc.Session
 		var accStat *erpc.Status
-		acceptor := world.Go("acceptor", func() { sess, accStat = srv.ServeConn(sc) })
+		var acceptor *vsched.Thread
+		if viaListener {
+			ctxt += " path=listener"
+			const addr = "10.0.0.2:9000"
+			lis := vnet.Listen(addr)
+			vsched.Spawn("acceptloop", func() { erpc.VerifServeListener(srv, lis) })
+			c, err := (&vnet.Dialer{}).Dial("tcp", addr)
+			if err != nil {
+				vsched.Failf("harness: dial: %v", err)
+			}
+			raw = c.(*vnet.Conn)
+			sc = raw.Peer()
+			acceptor = world.Go("acceptor", func() {})
+		} else {
+			raw, sc = vnet.Pipe(vnet.NewAddr(), vnet.NewAddr())
+			acceptor = world.Go("acceptor", func() { sess, accStat = srv.ServeConn(sc) })
+		}
 		app := func(i int) []byte {
 			if i == 0 {
 				return world.Frame{Seq: 10, Mtype: erpc.TypeCall, Method: hc, Codec: 'j', Body: []byte(`"a"`)}.Bytes()
@@ -122,6 +140,16 @@ func c16(p Params) func() {
 		vsched.Join(acceptor)
 		vsched.Quiesce()
 		accepted := first.name == "auth_good" && verdict == "accept"
+		if viaListener {
+			// the accept loop returns nothing: reconstruct its outcome from the index
+			srv.RangeSession(func(s erpc.Session) bool { sess = s; return false })
+			if accepted && !hangup && sess == nil {
+				vsched.Failf("valid authentication through the listener did not produce a session | %s", ctxt)
+			}
+			if sess == nil {
+				accStat = erpc.NewStatus(erpc.CodeUnauthorized, "no session", "")
+			}
+		}
 		if hangup {
 			// whether the verdict could still be written depends on the schedule; both outcomes are legal
 			accepted = accStat.OK()
@@ -152,7 +180,7 @@ func c16(p Params) func() {
 			if perMsgHooks != 0 {
 				vsched.Failf("per-message hooks ran on a connection that did not authenticate: %v | %s", trace, ctxt)
 			}
-			if accStat.OK() || sess != nil {
+			if !viaListener && (accStat.OK() || sess != nil) {
 				vsched.Failf("ServeConn returned a session for a connection that did not authenticate | %s", ctxt)
 			}
 			if !sc.IsClosed() {
